@@ -350,6 +350,9 @@ func c16CheckConc(c *mc.Ctx, names []string, bound int) {
 	c.Stat("states", n)
 	c.Stat("traces_validated_against_impl", n)
 	c.StatMax("max_distinct_joint_outcomes", int64(len(outcomes)))
+	if c.WantSample() {
+		c.Sample(map[string]any{"part": "concurrent", "requests": names, "schedules_explored": n, "deviation_bound": bound})
+	}
 }
 
 func init() {
@@ -407,6 +410,9 @@ func init() {
 				}
 				c.Case(idx, func() json.RawMessage { return mc.J(c16Case{Part: "sequential", Polluters: ps, Shared: shared}) })
 				f, obs := c16CheckSeq(ps, shared, expected)
+				if c.WantSample() && len(ps) == 2 {
+					c.Sample(map[string]any{"part": "sequential", "polluters": ps, "shared_interpreter": shared, "probe_vector": obs})
+				}
 				c.Eval(true)
 				c.Stat("sequential_histories", 1)
 				c.Stat("states", 1)
